@@ -180,6 +180,8 @@ def execute(world_cls, run, header, rng=None, ops=None):
     world's apply(); anything that does is a harness fault."""
     run.ev("seed", run.run_seed, "world", world_cls.name, "target", run.target)
     run.ev("header", header)
+    import seams
+    seams.reset_library_state()   # no state of the code under test survives from an earlier run
     w = world_cls(run, header)
     try:
         if ops is None:
